@@ -104,7 +104,7 @@ def run_workers(binary, prop, seed, tier, ncases, budget, extra=None, samples=2)
     error, race report, CPU watchdog) is charged to the case it had announced with a start
     marker and not finished; the worker is then restarted after that case."""
     import threading
-    w = min(NPROC, max(1, ncases))
+    w = min(WORKERS.get(prop, NPROC), NPROC, max(1, ncases))
     env = dict(os.environ, GOMAXPROCS=os.environ.get("VERIF_GOMAXPROCS", "1"))
     if "GORACE" not in env:
         env["GORACE"] = "halt_on_error=1 exitcode=66"
@@ -203,6 +203,9 @@ def death_feat(etxt):
 
 
 CASE_CPU = {"C03": 60}
+# race builds fault so many pages (shadow memory is reset on every free) that more than a few
+# processes only contend in this VM: measured 2.4 cases/s with 1 worker, 2.0 cases/s with 4, 1.9 with 16
+WORKERS = {"C18": 4}
 
 
 def shrink_and_confirm(binary, prop, seed, tier, res):
@@ -383,7 +386,7 @@ def check(prop, tier, seed):
             "probes_at_zero": zero_probes,
             "runs_per_hour": int(n / max(wall_run, 1e-9) * 3600),
             "events_per_hour": int(events / max(wall_run, 1e-9) * 3600),
-            "workers": min(NPROC, max(1, ncases)),
+            "workers": min(WORKERS.get(prop, NPROC), NPROC, max(1, ncases)),
             "components_real": REAL_ONLY.get(prop, REAL + REAL_EXTRA.get(prop, [])),
             "components_stub": STUB + STUB_EXTRA.get(prop, []),
             "known_findings_hit": {k: v["count"] for k, v in known_hits.items()},
@@ -417,6 +420,7 @@ RULES = {
     "C14": GEN + "a case is one bit-level operation program (write side, then mirrored or re-chunked read side); non-trivial = more than 64 bits written; distinct = distinct (buffer sizes, program hash) pairs; this property has no schedule dimension",
 }
 ASSUMPTIONS = {
+    "C18": ["worker built with -race; channel operations of the simulator baton are wrapped in runtime.RaceDisable/RaceEnable so they add no happens-before edge", "a race report is a verdict on the happens-before relation of the explored execution, not on physical overlap"],
     "C02": ["a checksum collision on a damaged block (2^-32 / 2^-64) is ignored"],
     "C14": ["single-threaded layer: no schedule or fault dimension; the simulator provides the sink/source seam, tape, replay and shrinking"],
 }
@@ -425,6 +429,7 @@ EXPECTED_PROBES = {
     "C02": ["damage.reported", "damage.harmless", "bytes.after.error", "parser.agrees"],
     "C03": ["rejected.with.error", "decoded.to.eof", "big.bwt.blocks"],
     "C10": ["corpus.entries", "differential.pairs"],
+    "C18": ["instances"],
     "C05": ["failed.block.reported", "damage.undetected.nochecksum", "parser.agrees"],
     "C06": ["src.short.not.multiple.of.8", "write.1byte"],
     "C07": ["handoff.cancel.observed", "handoff.failed.tasks", "handoff.io.by.holder", "handoff.end.of.stream.task", "sink.fault.while.task.holds", "src.fault.while.task.holds"],
